@@ -17,7 +17,7 @@ import diffrun
 
 # (driver family, Props modules, [(protocol name, hashlib name or None, block size)])
 FAMILIES = [
-    ("hashmd", ["PV.Props.C11md"],
+    ("hashmd", ["PV.Props.C11md", "PV.Props.C11std"],
      [("md5", "md5", 64), ("sha1", "sha1", 64), ("sha224", "sha224", 64), ("sha256", "sha256", 64),
       ("sha384", "sha384", 128), ("sha512", "sha512", 128)]),
     # ("hashx", ["PV.Props.C11x"], [("sha3-224", "sha3_224", 144), ("sha3-256", "sha3_256", 136),
